@@ -10,6 +10,7 @@ from exactly_lib.section_document.model import SectionContents, SectionContentEl
 from exactly_lib.test_case.hard_error import HardErrorException
 from exactly_lib.test_case.result.failure_details import FailureDetails
 from exactly_lib.util import line_source
+from exactly_lib.util import verif_trace
 
 
 class ElementHeaderExecutor:
@@ -43,6 +44,7 @@ def execute_phase(phase_contents: SectionContents,
     Exceptions raised by this object are translated to INTERNAL_ERROR.
     :return: None, if there was no error. Otherwise, the first error.
     """
+    verif_trace.emit('step', lambda: dict(step=str(phase_step)))
     failure = execute_phase_prim(phase_contents,
                                  header_executor_for_comment,
                                  header_executor_for_instruction,
@@ -89,6 +91,9 @@ def execute_phase_prim(phase_contents: SectionContents,
             failure_info = execute_element(instruction_executor,
                                            element,
                                            instruction_info)
+            verif_trace.emit('instr', lambda: dict(
+                line=element.source.first_line.line_number,
+                status=('ok' if failure_info is None else failure_info.status.name)))
             if failure_info is not None:
                 return Failure(failure_info.status,
                                failure_info.source_location_path,
@@ -158,9 +163,16 @@ def execute_action_and_catch_internal_error_exception(
     try:
         return action_that_raises_phase_step_or_hard_error_exception()
     except PhaseStepFailureException:
+        import sys
+        verif_trace.emit('act-step-failed', lambda: dict(step=str(failure_con._step),
+                                                         status=sys.exc_info()[1].failure.status.name))
         raise
     except HardErrorException as ex:
+        verif_trace.emit('act-step-failed', lambda: dict(step=str(failure_con._step), status='HARD_ERROR'))
         raise PhaseStepFailureException(failure_con.hard_error(ex))
     except Exception as ex:
         from exactly_lib.util import line_source, traceback_
+        verif_trace.emit('act-step-failed', lambda: dict(step=str(failure_con._step), status='INTERNAL_ERROR'))
         raise PhaseStepFailureException(failure_con.internal_error(ex, traceback_.traceback_as_str()))
+    finally:
+        verif_trace.emit('act-step-done', lambda: dict(step=str(failure_con._step)))
